@@ -664,6 +664,7 @@ def judge_all(ctx, classes, batch):
             lines.append('np_generic %s %s' % (dflt, msgs_text(maps)))
         else:
             paths = [e.path for e in nx.flat_entries(classes, ci) if e.path]
+            paths += [q for e in nx.flat_entries(classes, ci) if e.kind[0] == 'fillNaN' for q in (e.kind[1], e.kind[2])]
             if ci.prelude[0] == 'trimLeadingEq':
                 paths.append(ci.prelude[1])
             maps = [msg_map(m, paths) for m in case.msgs]
@@ -717,6 +718,8 @@ def kind_text(k):
         return 'perMsg/%s/%s/%d' % (k[1], k[2], 1 if k[3] else 0)
     if k[0] == 'first':
         return 'first/nanScalar' if k[1] == 'nanScalar' else 'first/nanVec/%d' % k[2]
+    if k[0] == 'fillNaN':
+        return 'fillNaN/%s/%s/%d' % ('.'.join(k[1]), '.'.join(k[2]), k[4])
     return 'opaque'
 
 
